@@ -339,6 +339,8 @@ def batch(rng, budget, deep, replay=None, only=None):
                         ok = all(lo - pad <= float(v) <= hi_ + pad for v in (solA[nm][i], sol[nm][j]))
                     if not ok:
                         site = '%s:batch' % name
+                        if name == 'SteadyDetonationReactionZone' and t > 1.0:
+                            site = 'SteadyDetonationReactionZone:position_relative-uninitialised'     # see two_instances
                         if site not in sites:
                             sites.add(site)
                             res['failures'].append(dict(
@@ -446,6 +448,11 @@ def history(rng, budget, deep, replay=None):
         if got is not None and fresh != got:
             name = job['cls'].split(':')[1]
             bad = [n for n in fresh if fresh[n] != got.get(n)]
+            if name == 'SteadyDetonationReactionZone' and job['t'] > 1.0:
+                res['failures'].append(dict(site='SteadyDetonationReactionZone:position_relative-uninitialised',
+                                            detail='position_relative differs between the call inside a history and the same call made '
+                                                   'first in a fresh interpreter (uninitialised memory, see two_instances)', case=job))
+                continue
             res['failures'].append(dict(site='%s:history' % name,
                                         detail='fields %s differ between the call inside a history of %d operations '
                                                'and the same call made first in a fresh interpreter' % (bad, nops),
@@ -521,6 +528,11 @@ def two_instances(rng, budget, deep, replay=None):
                     bad = [k for k in range(len(x)) if not _same(x[nm][k], y[nm][k], 0 if kind == 'other-instance' else tol)]
                     if bad:
                         site = '%s:%s' % (name, kind)
+                        if name == 'SteadyDetonationReactionZone' and t > 1.0:
+                            # the recorded C02 defect (sdrz.py reads xvec_rel[it1] from an np.empty array for t > 1):
+                            # uninitialised memory, so the value also changes from call to call — and with it every field the public call
+                            # interpolates over the absolute positions built from it
+                            site = 'SteadyDetonationReactionZone:position_relative-uninitialised'
                         if site not in sites:
                             sites.add(site)
                             res['failures'].append(dict(
